@@ -21,11 +21,23 @@ pub fn map_cfg(plan: Plan, universe: u8, probes: Vec<Probe>, tier: Tier, tag: &s
     Box::new(BfsConfig::new(label, MapHarness::<TKey, TVal>::new(c), lim))
 }
 
+fn set_probe_cfg(plan: Plan, universe: u8, tier: Tier) -> Box<dyn Config> {
+    let mut c = crate::setsut::SetCfg::new(plan, universe);
+    c.full_alphabet = false;
+    c.iter_probes = true;
+    c.max_buckets = if super::width() == 16 { 64 } else { 32 };
+    let label = format!("{}-iter-removal-probes", c.label());
+    Box::new(BfsConfig::new(label, crate::setsut::SetHarness::new(c), Limits { max_wall_s: if tier == Tier::Quick { 30.0 } else { 600.0 }, ..Default::default() }))
+}
+
 pub fn configs_c09(tier: Tier) -> Vec<Box<dyn Config>> {
     let sse2 = super::width() == 16;
     let q = tier == Tier::Quick;
     let p = vec![Probe::Iterators];
     let mut v = Vec::new();
+    // HashSet and HashTable counterparts
+    v.push(set_probe_cfg(Plan::Zero, if q { 8 } else { 11 }, tier));
+    v.push(super::c06::tab(Plan::Zero, if q { 5 } else { 7 }, if q { 7 } else { 9 }, vec![crate::tablesut::TProbe::Iterators], false, tier, "-iterators"));
     if sse2 {
         v.push(map_cfg(Plan::Zero, if q { 13 } else { 16 }, p.clone(), tier, "map-iter"));
         v.push(map_cfg(Plan::Seq, if q { 4 } else { 6 }, p.clone(), tier, "map-iter"));
@@ -48,6 +60,7 @@ pub fn configs_c10(tier: Tier) -> Vec<Box<dyn Config>> {
     pre.push(super::c04::mk::<TKey, TVal>(Plan::Zero, if q { 4 } else { 6 }, vec![vec![]], None, tier, false, "-faults"));
     let p = vec![Probe::Removal { max_subset_len: if q { 8 } else { 11 } }];
     let mut v = pre;
+    v.push(set_probe_cfg(if sse2 { Plan::Seq } else { Plan::Zero }, if q { 6 } else { 9 }, tier));
     if sse2 {
         v.push(map_cfg(Plan::Zero, if q { 11 } else { 14 }, p.clone(), tier, "map-removal"));
         v.push(map_cfg(Plan::Seq, if q { 4 } else { 6 }, p.clone(), tier, "map-removal"));
